@@ -107,6 +107,7 @@ type transcript struct {
 	term []bool   // the i-th message is the terminal message of its run
 	ok   []bool   // ... and it is a work-done (the Execute must succeed iff it arrives intact)
 	conc bool     // runs are executed concurrently
+	bad  bool     // the hello message is intact CBOR but unusable (unsupported version / schema that does not unserialize)
 }
 
 type recWriter struct {
@@ -186,6 +187,20 @@ func recordV3(runs []string, failing map[string]bool, conc bool, withSignal bool
 		t.ok[i] = m.MessageID == atp.MessageTypeWorkDone
 	}
 	return t
+}
+
+// badHello: a transcript that consists of one intact hello message the client must refuse.
+func badHello(version int64, schemaData any) *transcript {
+	return &transcript{ver: 3, bad: true, msgs: [][]byte{mustMarshal(atp.HelloMessage{Version: version, Schema: schemaData})},
+		runs: []string{""}, term: []bool{false}, ok: []bool{false}}
+}
+
+func goodSchemaData() any {
+	ser, err := theSchema().SelfSerialize()
+	if err != nil {
+		panic(err)
+	}
+	return ser
 }
 
 // synthV1: a v1-speaking server script: hello with version 1, then one bare work-done message per run.
@@ -404,8 +419,8 @@ func runSweepCase(t *transcript, runs []string, at int, kind string) sweepObs {
 		if fin {
 			break
 		}
-		// quiescent but not finished: confirm once more, then it is a hang
-		waitQuiescent()
+		// quiescent but not finished: confirm (pauses of increasing length, quiescence re-established), then it is a hang
+		confirmQuiescent()
 		mu.Lock()
 		fin = finished
 		ph := phase
@@ -465,8 +480,14 @@ func faultMain(args []string) {
 		},
 		"v1serial2": func() (*transcript, []string) { return synthV1([]string{"a", "b"}), []string{"a", "b"} },
 		"v1serial1": func() (*transcript, []string) { return synthV1([]string{"a"}), []string{"a"} },
+		// hello messages that arrive intact but must be refused: unsupported versions, schemas that do not unserialize
+		"hellobadver2":   func() (*transcript, []string) { return badHello(2, goodSchemaData()), nil },
+		"hellobadver9":   func() (*transcript, []string) { return badHello(9, goodSchemaData()), nil },
+		"hellobadschema": func() (*transcript, []string) { return badHello(3, map[string]any{"steps": "not a map"}), nil },
+		"hellonilschema": func() (*transcript, []string) { return badHello(3, nil), nil },
 	}
-	order := []string{"v3serial2", "v1serial2", "v3serial3err", "v3conc3", "v1serial1"}
+	order := []string{"v3serial2", "v1serial2", "v3serial3err", "v3conc3", "v1serial1",
+		"hellobadver2", "hellobadver9", "hellobadschema", "hellonilschema"}
 	describe := func(w *bufio.Writer, name string, t *transcript, runs []string) {
 		ends := sx.L(sx.A("ends"))
 		off := 0
@@ -488,7 +509,8 @@ func faultMain(args []string) {
 		for _, r := range runs {
 			rs.Append(sx.S(r))
 		}
-		fmt.Fprintln(w, sx.L(sx.A("tr"), sx.A(name), sx.L(sx.A("ver"), sx.I(int64(t.ver))), sx.L(sx.A("conc"), sx.B(t.conc)), ends, okm, rs).String())
+		fmt.Fprintln(w, sx.L(sx.A("tr"), sx.A(name), sx.L(sx.A("ver"), sx.I(int64(t.ver))), sx.L(sx.A("conc"), sx.B(t.conc)), ends, okm, rs,
+			sx.L(sx.A("badhello"), sx.B(t.bad))).String())
 	}
 	switch args[0] {
 	case "sweep":
@@ -504,6 +526,11 @@ func faultMain(args []string) {
 			total := 0
 			for _, m := range t.msgs {
 				total += len(m)
+			}
+			if t.bad && part == 0 {
+				// the unusable hello arrives intact and nothing else goes wrong
+				o := runSweepCase(t, runs, -1, "none")
+				fmt.Fprintln(w, sx.L(sx.A("sw"), sx.A(name), sx.A("none"), sx.I(-1), o.sx()).String())
 			}
 			for ki, kind := range []string{"eof", "readerr", "garbage"} {
 				stride := 1 // every byte offset: the transcripts are a few hundred bytes
